@@ -58,11 +58,11 @@ func (c *vClock) advance(delta int64) {
 		c.cur.check()
 	}
 }
-func (c *vClock) After(time.Duration) <-chan time.Time             { panic("unused") }
-func (c *vClock) Sleep(time.Duration)                              { panic("unused") }
-func (c *vClock) Since(time.Time) time.Duration                    { panic("unused") }
-func (c *vClock) Until(time.Time) time.Duration                    { panic("unused") }
-func (c *vClock) NewTicker(time.Duration) clockwork.Ticker         { panic("unused") }
+func (c *vClock) After(time.Duration) <-chan time.Time            { panic("unused") }
+func (c *vClock) Sleep(time.Duration)                             { panic("unused") }
+func (c *vClock) Since(time.Time) time.Duration                   { panic("unused") }
+func (c *vClock) Until(time.Time) time.Duration                   { panic("unused") }
+func (c *vClock) NewTicker(time.Duration) clockwork.Ticker        { panic("unused") }
 func (c *vClock) AfterFunc(time.Duration, func()) clockwork.Timer { panic("unused") }
 
 const vSlots = 3
